@@ -1149,7 +1149,7 @@ fn initial_reordering_consonant_syllable(
         // Use syllable() for sort accounting temporarily.
         let syllable = buffer.info[start].syllable();
         for i in start..end {
-            buffer.info[i].set_syllable(u8::try_from(i - start).unwrap());
+            buffer.info[i].set_syllable((i - start) as u8);
         }
 
         buffer.info[start..end].sort_by(|a, b| a.indic_position().cmp(&b.indic_position()));
